@@ -703,6 +703,27 @@ def rand_call(rng, i):
         if f == 'kronecker' and args and rng.random() < 0.4:
             a = {'sh': list(args[0]['sh']), 'e': list(args[0]['e'])}
         args.append(a)
+    if f == 'kronecker' and len(args) == 2 and rng.random() < 0.35:
+        # exact equality: distinct numbers that are relatively / absolutely close, and equal controls of that size
+        kind = rng.randrange(4)
+        if kind == 0:
+            x = Fraction(rng.choice([1, -1]) * rng.randint(10 ** 5, 10 ** 9))
+            y = x + rng.choice([1, -1, 2])
+        elif kind == 1:
+            x = Fraction(rng.randint(0, 9), 10 ** 9)
+            y = Fraction(rng.randint(0, 9), 10 ** 9)
+        elif kind == 2:
+            m = rng.randint(1, 200)
+            x = Fraction(m)
+            y = Fraction(m * (10 ** 7 + rng.choice([1, -1, 3])), 10 ** 7)
+        else:
+            x = Fraction(rng.randint(1, 2000), rng.choice([1, 1000, 10 ** 6]))
+            y = x + Fraction(1, 10 ** 6) * rng.choice([1, -1])
+        if rng.random() < 0.3:
+            y = x
+        if rng.random() < 0.5:
+            x, y = y, x
+        args = [{'sh': [], 'e': [(x, Fraction(0))]}, {'sh': [], 'e': [(y, Fraction(0))]}]
     text = '%s(%s)' % (f, rng.choice([', ', ',']).join(array_text(a, rng) for a in args))
     return {'ev': 'call', 'id': i, 'tb': tb, 'f': f, 'text': text,
             'args': [{'sh': a['sh'], 'e': [gj(z) for z in a['e']]} for a in args]}
